@@ -1,12 +1,92 @@
 import CTM.Drive.Util
+import CTM.Model.Stats
 open Lean
 
 namespace CTM.Drive.Stats
-open CTM CTM.Drive
+open CTM CTM.Drive CTM.Stats
 
-/-- ops of this module (stub: none yet) -/
-def handle : Handler := fun op _inp =>
+/-! JSON shapes
+  row    = [n, [[sum, sumsq, gt0, gt1, ge1], ...]]
+  cell   = [name, [v, ...]]
+  file   = [pathId, [cell, ...]]
+  table  = [[key, value], ...]
+-/
+
+def parseGStat (j : Json) : R GStat := do
+  match ← asArr j with
+  | [a, b, c, d, e] => return ⟨← asRat a, ← asRat b, ← asNat c, ← asNat d, ← asNat e⟩
+  | _ => .error "gstat: 5 entries expected"
+
+def parseRow (j : Json) : R Row := do
+  let (n, gs) ← asPair asNat (asList parseGStat) j
+  return ⟨n, gs⟩
+
+def parseBuffer (j : Json) : R Buffer := asList parseRow j
+
+def parseCell (j : Json) : R CellRec := do
+  let (n, vs) ← asPair asNat ratList j
+  return ⟨n, vs⟩
+
+def parseFile (j : Json) : R (Nat × List CellRec) := asPair asNat (asList parseCell) j
+
+def parseTable (j : Json) : R (List (Nat × Nat)) := asList (asPair asNat asNat) j
+
+def jGStat (s : GStat) : Json :=
+  Json.arr #[jRat s.sum, jRat s.sumsq, jNat s.gt0, jNat s.gt1, jNat s.ge1]
+
+def jRow (r : Row) : Json := Json.arr #[jNat r.n, jList jGStat r.genes]
+
+def jBuffer (b : Buffer) : Json := jList jRow b
+
+def jExcept {α} (f : α → Json) : Except StatsErr α → Json
+  | .ok a => jObj [("ok", f a)]
+  | .error e => jObj [("err", jStr e.name)]
+
+def jChunk (c : Chunk) : Json := Json.arr #[jNat c.file, jNat c.r0, jNat c.r1]
+
+def jAgg (a : Agg) : Json :=
+  jObj [("n", jNat a.n), ("mean", jList jRat a.mean), ("var", jList jRat a.var),
+        ("gt0", jNats a.gt0), ("gt1", jNats a.gt1), ("ge1", jNats a.ge1)]
+
+def handle : Handler := fun op inp =>
   match op with
+  | "stats.precompute" => some do
+      let nC ← asNat (← field inp "nClusters")
+      let g ← asNat (← field inp "g")
+      let tbl ← parseTable (← field inp "nameToRow")
+      let files ← asList parseFile (← field inp "files")
+      let rows ← asNat (← field inp "rows")
+      let nProc ← asNat (← field inp "nProc")
+      return jExcept jBuffer (precompute nC g tbl files rows nProc)
+  | "stats.worksplit" => some do
+      -- files given by their sizes only: cells are dummies
+      let sizes ← asList (asPair asNat asNat) (← field inp "sizes")
+      let rows ← asNat (← field inp "rows")
+      let nProc ← asNat (← field inp "nProc")
+      let files := sizes.map (fun p => (p.1, List.replicate p.2 (⟨0, []⟩ : CellRec)))
+      return jExcept (jList (jList jChunk)) (workSplit files rows nProc)
+  | "stats.nameToRow" => some do
+      let l2c ← asList (asPair asNat natList) (← field inp "leafToCells")
+      return jExcept (jList (jPair jNat jNat)) (nameToRowOfTree l2c)
+  | "stats.cellStat" => some do
+      let vs ← ratList (← field inp "vals")
+      return jRow (cellStat vs)
+  | "stats.truncate" => some do
+      let g ← asNat (← field inp "g")
+      let data ← parseBuffer (← field inp "data")
+      let o2r ← parseTable (← field inp "oldLeafToRow")
+      let newLeaves ← natList (← field inp "newLeaves")
+      let anc ← parseTable (← field inp "anc")
+      return jExcept jBuffer (truncate g data o2r newLeaves anc)
+  | "stats.mergeMax" => some do
+      let files ← asList parseBuffer (← field inp "files")
+      return jExcept jBuffer (mergeMax files)
+  | "stats.aggregate" => some do
+      let g ← asNat (← field inp "g")
+      let data ← parseBuffer (← field inp "data")
+      let c2r ← parseTable (← field inp "clusterToRow")
+      let leaves ← natList (← field inp "leaves")
+      return jExcept jAgg (aggregateStats g data c2r leaves)
   | _ => none
 
 end CTM.Drive.Stats
